@@ -15,6 +15,17 @@ _CORPUS = [
      "customs": {}, "opt": [["a", "succeeded", False], ["b", "succeeded", False]], "runahead": 0, "queues": {},
      "seed": 6, "fail_rate": 0, "custom_rate": 1.0, "disorder": 0, "ops": [{"tick": 9, "cmd": "restart", "mode": "now"}],
      "baseline": True},
+    # two DIFFERENT outputs of the same absolute parent (prep[^]:started => a ; prep[^]:succeeded => b), restart after
+    # both were completed: every later a and b must still find its prerequisite satisfied
+    {"icp": 1, "fcp": 5, "tasks": ["prep", "a", "b"],
+     "sections": [{"rec": "R1", "lines": [{"lhs": None, "rhs": "prep"}]},
+                  {"rec": "P1", "lines": [{"lhs": None, "rhs": "a"}, {"lhs": None, "rhs": "b"},
+                                           {"lhs": {"task": "prep", "abs": 0, "out": "started"}, "rhs": "a"},
+                                           {"lhs": {"task": "prep", "abs": 0, "out": "succeeded"}, "rhs": "b"}]}],
+     "customs": {}, "opt": [["prep", "succeeded", False], ["prep", "started", False], ["a", "succeeded", False],
+                            ["b", "succeeded", False]], "runahead": 0, "queues": {},
+     "seed": 8, "fail_rate": 0, "custom_rate": 1.0, "disorder": 0, "ops": [{"tick": 9, "cmd": "restart", "mode": "now"}],
+     "baseline": True},
 ]
 STREAMS = [SchedStream("C45", name="sched-abs", feat={"abs": "many", "restart": True}, n_quick=28, n_thorough=600,
                        corpus=_CORPUS)]
